@@ -98,6 +98,9 @@ def run(prop, tier):
                               {"engine": "parser", "module": "checks_parser", "clause": v["clause"], "universe": t["universe"], "order": t["order"]})
         rep.sample({"universe": verdicts[0]["trace"]["universe"], "order": verdicts[0]["trace"]["order"]})
         rep.sample({"universe": verdicts[-1]["trace"]["universe"], "order": verdicts[-1]["trace"]["order"]})
+        # (d) the constructor of the parser's nodes: WrittenAction.from_messages against spec/Written.tla
+        import checks_written
+        checks_written.run_written(rep, tier)
         rep.cov["exhaustive"] = False
     except MachineryFailure as e:
         print("MACHINERY-FAILURE %s: %s" % (prop, e))
